@@ -196,6 +196,108 @@ Theorem E2E_pn_discharged_meaning : forall ep endt p l, Discharged ep endt p l -
   ((forall o, In o l -> x_t o <= snd p) /\ endt <= snd p).
 Proof. exact discharged_meaning. Qed.
 
+(* C13 (e2e_cid).  Every row of the log is checked against the rows before it ... *)
+Theorem E2E_cid_judge_parts : forall case out, e2e_cid_judge case out = true ->
+  exists rws, take_rows 8 (nz out 6) (skipn 7 out) = Some (rws, []) /\
+    cid_scan (nz out 3) (nz out 4) [] (map mk_xrow rws) = true.
+Proof. exact cid_judge_parts. Qed.
+
+Theorem E2E_cid_rows_checked : forall lc ls l p r post, cid_scan lc ls [] l = true ->
+  l = p ++ r :: post -> cid_check lc ls (rev p) r = true.
+Proof. exact cid_rows_checked. Qed.
+
+(* ... which for a NEW_CONNECTION_ID frame sent means: retire_prior_to <= sequence number;
+   sequence numbers consecutive; a repeated sequence number repeats id and token, a new one has
+   an id and token never used before (the handshake id included); and the ids issued, not yet
+   retired by the peer and not below the largest retire_prior_to sent stay within the
+   active_connection_id_limit received from the peer *)
+Theorem E2E_cid_new_sound : forall lc ls pre r, cid_check lc ls pre r = true -> x_k r = 0 ->
+  c_rpt r <= c_seq r /\
+  1 <= c_seq r <= max_of c_seq (filter (kind_of 0 (x_ep r)) pre) + 1 /\
+  (forall o, In o pre -> kind_of 0 (x_ep r) o = true ->
+     (c_seq o = c_seq r -> c_id o = c_id r /\ c_tok o = c_tok r) /\
+     (c_seq o <> c_seq r -> c_id o <> c_id r /\ c_tok o <> c_tok r)) /\
+  (forall o, In o pre -> kind_of 5 (x_ep r) o = true -> c_id o <> c_id r) /\
+  (let rp := Z.max (c_rpt r) (max_of c_rpt (filter (kind_of 0 (x_ep r)) pre)) in
+   let retired := map c_seq (filter (kind_of 3 (x_ep r)) pre) in
+   let seqs := dedup (0 :: c_seq r :: map c_seq (filter (kind_of 0 (x_ep r)) pre)) in
+   Z.of_nat (length (filter (fun s => (rp <=? s) && negb (mem_z s retired)) seqs))
+     <= Z.max 2 (max_of c_seq (filter (kind_of 6 (x_ep r)) pre))).
+Proof. exact cid_new_sound. Qed.
+
+(* for a RETIRE_CONNECTION_ID frame sent: the sequence number was issued by the peer (or lies
+   below a retire_prior_to received), and the frame does not travel in a packet addressed to
+   the id it retires *)
+Theorem E2E_cid_retire_sound : forall lc ls pre r, cid_check lc ls pre r = true -> x_k r = 1 ->
+  (c_seq r <= max_of c_seq (filter (kind_of 2 (x_ep r)) pre) \/
+   c_seq r < max_of c_rpt (filter (kind_of 2 (x_ep r)) pre)) /\
+  (c_dcid r <> -1 ->
+   (forall o, In o pre -> kind_of 2 (x_ep r) o = true -> c_seq o = c_seq r -> c_id o <> c_dcid r) /\
+   (forall o, In o pre -> kind_of 5 (1 - x_ep r) o = true -> c_seq r = 0 -> c_id o <> c_dcid r)).
+Proof. exact cid_retire_sound. Qed.
+
+(* a datagram addressed to an id this endpoint issued is dropped as unknown only after the peer
+   retired that id or this endpoint asked for its retirement *)
+Theorem E2E_cid_drop_sound : forall lc ls pre r, cid_check lc ls pre r = true -> x_k r = 4 ->
+  forall o, In o pre -> (kind_of 0 (x_ep r) o = true \/ kind_of 5 (x_ep r) o = true) ->
+  c_id o = c_id r ->
+  In (c_seq o) (map c_seq (filter (kind_of 3 (x_ep r)) pre)) \/
+  c_seq o < max_of c_rpt (filter (kind_of 0 (x_ep r)) pre).
+Proof. exact cid_drop_sound. Qed.
+
+(* C09 / C10 (e2e_cc).  Each endpoint's rows up to the close are checked against the state the
+   earlier rows produce ... *)
+Theorem E2E_cc_judge_parts : forall case out, e2e_cc_judge case out = true ->
+  exists rws, take_rows 8 (nz out 5) (skipn 6 out) = Some (rws, []) /\
+    cc_scan (nz out 3) cc_init (filter (fun r => x_ep r =? 0) (map mk_xrow rws)) = true /\
+    cc_scan (nz out 3) cc_init (filter (fun r => x_ep r =? 1) (map mk_xrow rws)) = true.
+Proof. exact cc_judge_parts. Qed.
+
+Theorem E2E_cc_scan_sound : forall cc l s, cc_scan cc s l = true ->
+  forall pre r post, l = pre ++ r :: post ->
+  (forall o, In o pre -> x_k o <> 7) -> x_k r <> 7 ->
+  cc_check cc (fold_left cc_upd pre s) r = true.
+Proof. exact cc_scan_sound. Qed.
+
+(* C09: a packet declared lost was in flight (so no packet is resolved twice), and a packet
+   with a larger number had been acknowledged *)
+Theorem E2E_cc_lost_sound : forall cc s r, cc_check cc s r = true -> x_k r = 2 ->
+  exists u, In u (s_unres s) /\ u_sp u = g_x r /\ u_pn u = g_a r /\
+            (g_c r <> 1 -> g_a r < s_largest s (g_x r)).
+Proof. exact cc_lost_sound. Qed.
+
+(* C09: a loss not justified by the packet threshold (3) or by the time threshold at the rtt
+   values before the ACK is queued ... *)
+Theorem E2E_cc_pending_rule : forall s r, x_k r = 2 ->
+  s_pending (cc_upd s r) = s_pending s \/
+  (exists age, s_pending (cc_upd s r) = (age, g_a r) :: s_pending s /\
+     g_c r <> 1 /\ s_largest s (g_x r) - g_a r < 3 /\ age < time_threshold (s_srtt s) (s_latest s)).
+Proof. exact cc_pending_rule. Qed.
+
+(* ... and every queued loss meets the time threshold 9/8 max(srtt, latest) (>= 1 ms) at the rtt
+   values of the next recovery metrics *)
+Theorem E2E_cc_pending_sound : forall cc s r, cc_check cc s r = true -> x_k r = 3 ->
+  forall p, In p (s_pending s) -> time_threshold (g_c r) (g_d r) <= fst p.
+Proof. exact cc_pending_sound. Qed.
+
+(* C09 / C10: reported bytes_in_flight equals the bookkeeping sum (except at the instant of a key
+   space discard), is never negative; the window never drops below 2 (cubic) / 4 (bbr) datagrams *)
+Theorem E2E_cc_metrics_sound : forall cc s r, cc_check cc s r = true -> x_k r = 3 ->
+  (g_time r <> s_discard_t s -> g_b r = s_bif s) /\ 0 <= g_b r /\
+  (if cc =? 0 then 2 else 4) * s_mtu s <= g_a r.
+Proof. exact cc_metrics_sound. Qed.
+
+Theorem E2E_cc_bif_invariant : forall l s, s_bif s = el_bytes (s_unres s) ->
+  s_bif (fold_left cc_upd l s) = el_bytes (s_unres (fold_left cc_upd l s)).
+Proof. exact cc_bif_invariant. Qed.
+
+(* C10: a congestion controlled packet in normal mode is sent only while bytes in flight are
+   below the window, or as the one packet after a congestion event *)
+Theorem E2E_cc_sent_sound : forall cc s r, cc_check cc s r = true -> x_k r = 0 ->
+  (forall u, In u (s_unres s) -> ~ (u_sp u = g_x r /\ u_pn u = g_a r)) /\
+  (g_c r = 1 -> g_d r = 0 -> s_bif s < s_cwnd s \/ s_after_cong s = true).
+Proof. exact cc_sent_sound. Qed.
+
 Print Assumptions E2E_stream_judge_parts.
 Print Assumptions E2E_c01_sound.
 Print Assumptions E2E_c01_all.
@@ -224,3 +326,16 @@ Print Assumptions E2E_pn_strictly_increase.
 Print Assumptions E2E_pn_ack_ranges_processed.
 Print Assumptions E2E_pn_acks_timely.
 Print Assumptions E2E_pn_discharged_meaning.
+Print Assumptions E2E_cid_judge_parts.
+Print Assumptions E2E_cid_rows_checked.
+Print Assumptions E2E_cid_new_sound.
+Print Assumptions E2E_cid_retire_sound.
+Print Assumptions E2E_cid_drop_sound.
+Print Assumptions E2E_cc_judge_parts.
+Print Assumptions E2E_cc_scan_sound.
+Print Assumptions E2E_cc_lost_sound.
+Print Assumptions E2E_cc_pending_rule.
+Print Assumptions E2E_cc_pending_sound.
+Print Assumptions E2E_cc_metrics_sound.
+Print Assumptions E2E_cc_bif_invariant.
+Print Assumptions E2E_cc_sent_sound.
